@@ -9,7 +9,7 @@
  "defines": ["-DTL_NMAX=3"]}
 */
 /* timerlist_expire on ANY valid heap of up to 3 timers at ANY clock value: a callback runs only for a timer
- * whose expiry is strictly before the clock value (its duration has elapsed), callbacks run in order of
+ * whose expiry is not after the clock value (its duration has elapsed), callbacks run in order of
  * expiry, each timer at most once, with its handle already cleared; the pass ends when the earliest pending timer is not yet due, so no due timer is left behind
  * and no timer that is not due has run. */
 #include "tl.h"
@@ -32,7 +32,7 @@ static void verif_tmo_cb(void *data)
 	if (idx < 0) {
 		return;
 	}
-	POST(t->expire_time < verif_now_mono, "a timer is not dispatched before its duration has elapsed");
+	POST(t->expire_time <= verif_now_mono, "a timer is not dispatched before its duration has elapsed");
 	POST(v_calls == 0 || t->expire_time >= v_last_expire, "timers are dispatched in order of their expiry times");
 	POST(!v_ran[idx], "a timer runs exactly once");
 	POST(tl_handle[idx] == NULL, "the timer's handle is cleared before its callback runs");
@@ -68,14 +68,18 @@ void harness(void)
 	for (int i = 0; i < TL_SLOTS; i++) {
 		v_ran[i] = 0;
 	}
-	int due = 0;
+	int due = 0, due_or_at = 0;   /* timers whose expiry is before the clock value / not after it */
 	for (size_t i = 0; i < TL_SLOTS; i++) {
 		if (i < nd_n && tl_t[i]->expire_time < nd_now) {
 			due++;
 		}
+		if (i < nd_n && tl_t[i]->expire_time <= nd_now) {
+			due_or_at++;
+		}
 	}
 	struct timerlist_timer *wit = nd_wit < nd_n ? tl_t[nd_wit] : NULL;
 	int wit_due = wit != NULL && wit->expire_time < nd_now;
+	int wit_not_yet = wit != NULL && wit->expire_time > nd_now;
 
 	int32_t rc = timerlist_expire(&vtl);
 
@@ -86,12 +90,13 @@ void harness(void)
 	COVER(v_rearmed && v_calls == 2);
 #endif
 	POST(rc == 0 && verif_mutex_depth == 0, "the pass succeeds and releases the list lock");
-	POST(v_calls == due, "exactly the timers that are due run in a pass");
+	POST(v_calls >= due && v_calls <= due_or_at, "every timer whose expiry has passed runs in the pass, and no timer whose expiry is still ahead");
 	if (wit != NULL) {
-		POST(v_ran[nd_wit] == wit_due, "a timer runs in this pass exactly when it is due");
-		POST(tl_count(&vtl, wit) == (wit_due ? 0 : 1), "a timer that is not due stays pending");
+		POST(!wit_due || v_ran[nd_wit], "a timer whose expiry has passed is dispatched in the pass");
+		POST(!wit_not_yet || (!v_ran[nd_wit] && tl_count(&vtl, wit) == 1), "a timer whose expiry is still ahead does not run and stays pending");
+		POST(tl_count(&vtl, wit) == (v_ran[nd_wit] ? 0 : 1), "a dispatched timer leaves the heap, the others stay");
 	}
-	POST(vtl.size == nd_n - due + v_rearmed, "dispatched timers leave the heap, the others stay");
+	POST(vtl.size == nd_n - v_calls + v_rearmed, "dispatched timers leave the heap, the others stay");
 	POST(vtl.size == 0 || !(vtl.heap_entries[0]->expire_time < nd_now), "the pass ends only when the earliest pending timer is not yet due");
 	POST(tl_heap_ok(&vtl) && tl_pos_ok(&vtl), "after a pass the earliest expiry is at the head of the heap (timers are dispatched in expiry order)");
 }
